@@ -1487,22 +1487,29 @@ class FuncExecute(ValueFunc):
         if echo:
             print(" ".join([program] + arglist))
 
-        if output_file is not None:
-            # TODO directly pipe output to dest file
-            p = subprocess.run(
-                [program] + arglist,
-                cwd=(work_dir if work_dir else None),
-                capture_output=True,
-                encoding="utf-8",
+        try:
+            if output_file is not None:
+                # TODO directly pipe output to dest file
+                p = subprocess.run(
+                    [program] + arglist,
+                    cwd=(work_dir if work_dir else None),
+                    capture_output=True,
+                    encoding="utf-8",
+                )
+                with open(output_file, "w", encoding="utf-8") as outfile:
+                    outfile.write(p.stdout)
+                return ValueInt(p.returncode)
+            else:
+                p = subprocess.run(
+                    [program] + arglist, cwd=(work_dir if work_dir else None)
+                )
+                return ValueInt(p.returncode)
+        except (OSError, ValueError):
+            # the program or work directory does not exist, the output file
+            # cannot be written, an argument contains a NUL character
+            raise CklRuntimeError(
+                ValueString("ERROR"), "Cannot execute " + program, pos
             )
-            with open(output_file, "w", encoding="utf-8") as outfile:
-                outfile.write(p.stdout)
-            return ValueInt(p.returncode)
-        else:
-            p = subprocess.run(
-                [program] + arglist, cwd=(work_dir if work_dir else None)
-            )
-            return ValueInt(p.returncode)
 
 
 class FuncExp(ValueFunc):
@@ -1564,7 +1571,14 @@ class FuncFileCopy(ValueFunc):
     def execute(self, args, environment, pos):
         src = args.getString("src").value
         dest = args.getString("dest").value
-        shutil.copy2(src, dest)
+        try:
+            shutil.copy2(src, dest)
+        except OSError:
+            raise CklRuntimeError(
+                ValueString("ERROR"),
+                "Cannot copy file " + src + " to " + dest,
+                pos,
+            )
         return NULL
 
 
@@ -1665,7 +1679,14 @@ class FuncFileMove(ValueFunc):
     def execute(self, args, environment, pos):
         src = args.getString("src").value
         dest = args.getString("dest").value
-        os.rename(src, dest)
+        try:
+            os.rename(src, dest)
+        except OSError:
+            raise CklRuntimeError(
+                ValueString("ERROR"),
+                "Cannot move file " + src + " to " + dest,
+                pos,
+            )
         return NULL
 
 
@@ -2471,9 +2492,16 @@ class FuncListDir(ValueFunc):
         if args.hasArg("include_dirs"):
             include_dirs = args.getBoolean("include_dirs").value
         result = ValueList()
-        self.collectFiles(
-            directory, recursive, include_path, include_dirs, result
-        )
+        try:
+            self.collectFiles(
+                directory, recursive, include_path, include_dirs, result
+            )
+        except OSError:
+            raise CklRuntimeError(
+                ValueString("ERROR"),
+                "Cannot list directory " + directory,
+                pos,
+            )
         return result
 
     def collectFiles(
